@@ -272,6 +272,7 @@ class DiagService(DiagComm):
                 coding_objects.append(candidate_coding_object)
 
         result_list: List[Message] = []
+        last_error: Optional[DecodeError] = None
         for coding_object in coding_objects:
             try:
                 result_list.append(
@@ -285,8 +286,15 @@ class DiagService(DiagComm):
                 # encountered a non-matching value -> coding object
                 # does not apply
                 pass
+            except DecodeError as e:
+                # the message cannot be decoded using this coding
+                # object (e.g., because it is too short). The other
+                # ones may still apply, though.
+                last_error = e
 
-        if len(result_list) < 1:
+        if len(result_list) < 1 and last_error is not None:
+            raise last_error
+        elif len(result_list) < 1:
             odxraise(f"The service {self.short_name} cannot decode the message {raw_message.hex()}",
                      DecodeError)
             return Message(
